@@ -110,7 +110,7 @@ def build_file(ch, ctx):
         d["history_ops"] = ops[:40]
         return data, "c07history", d, list(model.records), node
     if src == 0:
-        sc = common.container_scenario(ch, max_records=10, size_profiles=True)
+        sc = common.container_scenario(ch, max_records=10, size_profiles=True, wide=False)
         sc.sync_interval = common.draw_sync_interval(ch, common.encoded_sizes(sc) if sc.profile == "small" else [8], sc)
         if sc.profile != "small":
             ctx.probe("profile_" + sc.profile)
@@ -127,7 +127,7 @@ def build_file(ch, ctx):
         return data, "fastavro", sc.describe(), [common.strip_hints(r, sc.node) for r in sc.records], sc.node
     if src == 1:
         # foreign writer: any partition incl. empty blocks, multi-chunk header, codec key absent
-        sc = common.container_scenario(ch, max_records=10)
+        sc = common.container_scenario(ch, max_records=10, wide=False)
         recs = [common.strip_hints(r, sc.node) for r in sc.records]
         blocks = []
         i = 0
@@ -148,7 +148,7 @@ def build_file(ch, ctx):
         d["foreign_blocks"] = [len(b) for b in blocks]
         return data, "foreign", d, recs, sc.node
     # history: several writers' blocks (append + write_block)
-    sc = common.container_scenario(ch, max_records=9, top="record")
+    sc = common.container_scenario(ch, max_records=9, top="record", wide=False)
     sc.sync_interval = common.draw_sync_interval(ch, common.encoded_sizes(sc))
     recs = sc.records
     cutp = ch.draw(len(recs) + 1)
